@@ -64,7 +64,9 @@ theorem validity_valid {rrsig : Rrsig} {keyName : Name} {keyType : Nat} {records
   · cases h
   split at h
   · cases h
-  rename_i h1 h2 h3 h4
+  split at h
+  · cases h
+  rename_i h1 h2 hwf h3 h4
   simp only [List.any_eq_true, bne_iff_ne, ne_eq, not_exists, not_and, Decidable.not_not] at h1
   simp only [Bool.not_eq_true', Bool.and_eq_true, beq_iff_eq,
     decide_eq_true_eq, Bool.not_eq_false] at h2 h3 h4
@@ -125,6 +127,44 @@ theorem window_rejects (sigValid : SigOracle) (k : Dnskey) (kp : Proof) (sig : R
     (hw : ¬ InWindow now sig.input.inception sig.input.expiration) :
     verifyRrsetWithDnskey sigValid k kp sig keyName keyType records now ≠ .ok (.secure, ttl) :=
   fun h => hw (secure_implies_checks sigValid k kp sig keyName keyType records now ttl hnow hinc hexp h).2.2.2.2.2.2.2.2.2.2.2.1
+
+/-- since the repair `fix: an RRSIG's validity period must be well formed`: a valid RRSIG has
+`inception ≤ expiration` in serial arithmetic -/
+theorem valid_period {rrsig : Rrsig} {keyName : Name} {keyType : Nat} {records : List Record}
+    {k : Dnskey} {now : Nat}
+    (h : rrsigValidityCheck rrsig keyName keyType records k now = .validRrsig) :
+    serialLe rrsig.input.inception rrsig.input.expiration = true := by
+  unfold rrsigValidityCheck at h
+  split at h
+  · cases h
+  split at h
+  · cases h
+  split at h
+  · cases h
+  rename_i hwf
+  simpa using hwf
+
+/-- **A Secure verdict implies a well-formed validity period** (`inception ≤ expiration` serially:
+non-empty and shorter than 2³¹ s). -/
+theorem secure_period_wf (sigValid : SigOracle) (k : Dnskey) (kp : Proof) (sig : Rrsig)
+    (keyName : Name) (keyType : Nat) (records : List Record) (now : Nat) (ttl : Option Nat)
+    (hinc : sig.input.inception < M) (hexp : sig.input.expiration < M)
+    (h : verifyRrsetWithDnskey sigValid k kp sig keyName keyType records now = .ok (.secure, ttl)) :
+    SerialLe sig.input.inception sig.input.expiration := by
+  unfold verifyRrsetWithDnskey at h
+  split at h
+  · cases h
+  split at h
+  · cases h
+  split at h
+  · cases h
+  split at h
+  · cases h
+  split at h
+  · cases h
+  rename_i h5
+  simp only [ne_eq, Decidable.not_not] at h5
+  exact (serialLe_iff _ _ hinc hexp).1 (valid_period h5)
 
 /-- **TTL of an accepted RRset.**  A Secure verdict carries a TTL, and that TTL is at most the
 remaining signature lifetime (`expiration ⊖ now` in serial arithmetic), the RRSIG's Original TTL and
@@ -289,7 +329,7 @@ theorem keys_secure_implies {sigValid : SigOracle} {dnskeys : List (Dnskey × Pr
   split at h
   · cases h
   · obtain ⟨k, hk, hv⟩ := keysLoop_secure h
-    exact ⟨k, mem_filterTagCollisions hk, hv⟩
+    exact ⟨k, (List.mem_filter.1 (mem_filterTagCollisions hk)).1, hv⟩
 
 theorem fresh_secure {sigValid : SigOracle} {r : Request}
     (h : (freshVerdict sigValid r).proof = .secure) :
@@ -298,11 +338,15 @@ theorem fresh_secure {sigValid : SigOracle} {r : Request}
         = .ok (.secure, (freshVerdict sigValid r).adjustedTtl) := by
   unfold freshVerdict at h ⊢
   split at h
-  · rename_i p ttl hv
-    simp only at h
-    subst h
-    exact keys_secure_implies hv
   · cases h
+  · rename_i hz
+    simp only [hz]
+    split at h
+    · rename_i p ttl hv
+      simp only at h
+      subst h
+      exact keys_secure_implies hv
+    · cases h
 
 /-! ### the validation cache: provenance of every verdict 
 
@@ -456,15 +500,15 @@ def AllSecure (Q : Request → Verdict → Prop) : List Request → List (Verdic
   | _, _ => False
 
 /-- lifts a per-step lemma about Secure verdicts to whole histories; `P` relates an earlier request
-to a later one, `C` is a condition on single requests -/
+to a later one, `B` is a condition on the answered request, `C` on the earlier ones -/
 theorem allSecure_of_sound (sigValid : SigOracle) (cfg : CacheConfig)
     (serve : CacheEntry → Request → Option Verdict) (Q : Request → Verdict → Prop)
-    (P : Request → Request → Prop) (C : Request → Prop)
+    (P : Request → Request → Prop) (B C : Request → Prop)
     (hstep : ∀ past r v fresh, StepSound sigValid cfg serve past r v fresh → v.proof = .secure →
-      Bounds r → (∀ r' ∈ past, P r' r ∧ C r') → Q r v)
+      B r → (∀ r' ∈ past, P r' r ∧ C r') → Q r v)
     (past hist : List Request)
     (outs : List (Verdict × Bool)) (hs : SoundFrom sigValid cfg serve past hist outs)
-    (hb : ∀ r ∈ hist, Bounds r ∧ C r)
+    (hb : ∀ r ∈ hist, B r ∧ C r)
     (hpast : ∀ r' ∈ past, C r' ∧ ∀ r ∈ hist, P r' r)
     (hpw : hist.Pairwise P) :
     AllSecure Q hist outs := by
@@ -494,10 +538,16 @@ theorem fresh_secure_isOk {sigValid : SigOracle} {r : Request}
     (h : (freshVerdict sigValid r).proof = .secure) : (freshVerdict sigValid r).isOk = true := by
   unfold freshVerdict at h ⊢
   split
-  · rfl
-  · rename_i hn
-    rw [hn] at h
+  · rename_i hz
+    simp only [hz] at h
     cases h
+  · rename_i hz
+    simp only [hz] at h ⊢
+    split
+    · rfl
+    · rename_i hn
+      rw [hn] at h
+      cases h
 
 /-- the authenticated TTL of a fresh Secure verdict is at most `expiration − now` -/
 theorem fresh_secure_ttl {sigValid : SigOracle} {r : Request} (hnow : r.now < M)
@@ -525,7 +575,7 @@ theorem span_window {t0 now inc exp : Nat} (ht0 : t0 < M) (hnow : now < M) (hinc
 theorem step_secure (sigValid : SigOracle) (cfg : CacheConfig)
     (past : List Request) (r : Request) (v : Verdict) (fresh : Bool)
     (hs : StepSound sigValid cfg serve past r v fresh) (hsec : v.proof = .secure) (hb : Bounds r)
-    (hpair : ∀ r' ∈ past, KeyFaithful r' r ∧ Bounds r') :
+    (hpair : ∀ r' ∈ past, KeyFaithful r' r ∧ r'.now < M) :
     SecureOK sigValid r ∧ TtlOK r v := by
   obtain ⟨hnow, hinc, hexp, hwf⟩ := hb
   rcases hs with ⟨_, hv⟩ | ⟨_, r', hr', hck, t, ht, hlive, hv⟩
@@ -539,9 +589,8 @@ theorem step_secure (sigValid : SigOracle) (cfg : CacheConfig)
     rw [ht'] at h0
     simp only [Option.some.injEq] at h0
     omega
-  · obtain ⟨hkf, hb'⟩ := hpair r' hr'
+  · obtain ⟨hkf, hnow'⟩ := hpair r' hr'
     obtain ⟨hsig, hkn, hkt, hrec⟩ := hkf hck
-    obtain ⟨hnow', _, _, _⟩ := hb'
     -- the verdict served has the proof of the stored one
     have hsec' : (freshVerdict sigValid r').proof = .secure := by
       simp only [serve, entryOf] at hv
@@ -586,8 +635,51 @@ theorem cache_sound (sigValid : SigOracle) (cfg : CacheConfig) (hist : List Requ
     (hb : ∀ r ∈ hist, Bounds r) (hkey : hist.Pairwise KeyFaithful) :
     AllSecure (fun r v => SecureOK sigValid r ∧ TtlOK r v) hist
       (runHistory sigValid cfg [] hist) :=
-  allSecure_of_sound sigValid cfg serve _ KeyFaithful Bounds
+  allSecure_of_sound sigValid cfg serve _ KeyFaithful Bounds (fun r => r.now < M)
     (fun past r v fresh hs hsec hb hp => step_secure sigValid cfg past r v fresh hs hsec hb hp)
+    [] hist _ (cache_provenanceG sigValid cfg serve hist)
+    (fun r hr => ⟨hb r hr, (hb r hr).1⟩) (by simp) hkey
+
+/-- clock and RRSIG times are `u32`s (nothing is assumed about the RRSIG's period) -/
+def Bounds32 (r : Request) : Prop :=
+  r.now < M ∧ r.rrsig.input.inception < M ∧ r.rrsig.input.expiration < M
+
+theorem step_secure32 (sigValid : SigOracle) (cfg : CacheConfig)
+    (past : List Request) (r : Request) (v : Verdict) (fresh : Bool)
+    (hs : StepSound sigValid cfg serve past r v fresh) (hsec : v.proof = .secure) (hb : Bounds32 r)
+    (hpair : ∀ r' ∈ past, KeyFaithful r' r ∧ Bounds32 r') :
+    SecureOK sigValid r ∧ TtlOK r v := by
+  obtain ⟨hnow, hinc, hexp⟩ := hb
+  -- the period is well formed because some request with this RRSIG was validated Secure
+  have hwf : SerialLe r.rrsig.input.inception r.rrsig.input.expiration := by
+    rcases hs with ⟨_, hv⟩ | ⟨_, r', hr', hck, t, ht, hlive, hv⟩
+    · subst hv
+      obtain ⟨k, _, hk⟩ := fresh_secure hsec
+      exact secure_period_wf sigValid k .secure r.rrsig r.keyName r.keyType r.records r.now _ hinc hexp hk
+    · obtain ⟨hkf, _⟩ := hpair r' hr'
+      obtain ⟨hsig, _, _, _⟩ := hkf hck
+      have hsec' : (freshVerdict sigValid r').proof = .secure := by
+        simp only [serve, entryOf] at hv
+        split at hv
+        · split at hv
+          · cases hv
+          · split at hv <;> (simp only [Option.some.injEq] at hv; rw [← hv] at hsec; exact hsec)
+        · simp only [Option.some.injEq] at hv; rw [← hv] at hsec; exact hsec
+      obtain ⟨k, _, hk⟩ := fresh_secure hsec'
+      rw [← hsig]
+      exact secure_period_wf sigValid k .secure r'.rrsig r'.keyName r'.keyType r'.records r'.now _
+        (by rw [hsig]; exact hinc) (by rw [hsig]; exact hexp) hk
+  exact step_secure sigValid cfg past r v fresh hs hsec ⟨hnow, hinc, hexp, hwf⟩
+    (fun r' hr' => ⟨(hpair r' hr').1, (hpair r' hr').2.1⟩)
+
+/-- **`cache_sound` without any assumption on the RRSIG's period** (u32 bounds and `KeyFaithful`
+only): a Secure verdict can only ever be computed for a well-formed period (`secure_period_wf`). -/
+theorem cache_sound_u32 (sigValid : SigOracle) (cfg : CacheConfig) (hist : List Request)
+    (hb : ∀ r ∈ hist, Bounds32 r) (hkey : hist.Pairwise KeyFaithful) :
+    AllSecure (fun r v => SecureOK sigValid r ∧ TtlOK r v) hist
+      (runHistory sigValid cfg [] hist) :=
+  allSecure_of_sound sigValid cfg serve _ KeyFaithful Bounds32 Bounds32
+    (fun past r v fresh hs hsec hb hp => step_secure32 sigValid cfg past r v fresh hs hsec hb hp)
     [] hist _ (cache_provenanceG sigValid cfg serve hist)
     (fun r hr => ⟨hb r hr, hb r hr⟩) (by simp) hkey
 
@@ -626,6 +718,21 @@ example :
       [recA 3600 [10, 0, 0, 1]] 1000 = .error .bogus ∧
     verifyRrsetWithDnskey acceptAll key0 .insecure sig0 nameA 1 [recA 3600 [10, 0, 0, 1]] 1000
       = .error .insecure := by
+  decide
+
+/-- regression (fixed by `fix: an RRSIG's validity period must be well formed`): an RRSIG with
+expiration 1010 and inception 1010 + 2³¹ (a period of exactly 2³¹ s, undefined in serial arithmetic)
+used to be Secure at 1009 and was then served from the cache at 1010, where `inception ≤ now` is
+undefined; it is now never Secure, like every RRSIG whose expiration is before its inception -/
+example :
+    let sigW : Rrsig := { sig0 with input := { sig0.input with inception := 1010 + HALF } }
+    let sigE : Rrsig := { sig0 with input := { sig0.input with inception := 2000, expiration := 1000 } }
+    let req : Rrsig → Nat → Request := fun sg now => ⟨[1], [(key0, .secure)], sg, nameA, 1, [recA 3600 [10, 0, 0, 1]], now, 0⟩
+    (freshVerdict acceptAll (req sigW 1009)).proof = .bogus ∧
+    (freshVerdict acceptAll (req sigW 1010)).proof = .bogus ∧
+    (freshVerdict acceptAll (req sigE 999)).proof = .bogus ∧
+    (freshVerdict acceptAll (req sigE 1500)).proof = .bogus ∧
+    (freshVerdict acceptAll (req sigE 2001)).proof = .bogus := by
   decide
 
 /-- an oracle that accepts exactly the signed data of `recs` under `sig0` (what unforgeability gives
